@@ -43,11 +43,12 @@ OPS = [
     ('verify', True, 'read'), ('verify_sub', True, 'read'), ('find_path', True, 'read'),
     ('find_dist', True, 'read'), ('verify_path', True, 'read'),
     ('upd', True, 'update'), ('upd_sub', True, 'update'), ('upd_entry', True, 'update'),
-    ('upd_fault', True, 'update'),
+    ('upd_fault', True, 'update'), ('upd_entry_distname', True, 'update'),
     ('save', True, 'save'), ('save_force', True, 'save'), ('save_sort', True, 'save'), ('save_wm0', True, 'save'),
     ('save_wmhuge', True, 'save'),
     ('cli_verify', False, 'cli_read'), ('cli_update', False, 'cli_write'), ('cli_update_sub', False, 'cli_write'),
     ('edit_alter', False, 'env'), ('edit_add', False, 'env'), ('edit_delete', False, 'env'),
+    ('edit_delete_f1', False, 'env'),
     ('env_dir_for_file', False, 'env'), ('env_loop', False, 'env'),
 ]
 OPKIND = {n: k for n, _l, k in OPS}
@@ -111,6 +112,10 @@ def do_op(w, op):
     if op == 'upd_entry':
         w.scopes.append('d/f1')
         return gem.brief(gem.call(lambda: m.update_entry_for_path('d/f1')))
+    if op == 'upd_entry_distname':
+        # single-path update of a path that is named like a DIST entry of the governing Manifest
+        w.scopes.append('d/c.tar')
+        return gem.brief(gem.call(lambda: m.update_entry_for_path('d/c.tar')))
     if op == 'upd_fault':
         w.scopes.append('')
 
@@ -148,6 +153,10 @@ def do_op(w, op):
             with open(j('d/new'), 'wb') as f:
                 f.write(b'n')
             os.utime(j('d/new'), (1500000100, 1500000100))
+        return 'ok'
+    if op == 'edit_delete_f1':
+        if os.path.isfile(j('d/f1')):
+            os.unlink(j('d/f1'))
         return 'ok'
     if op == 'edit_delete':
         if os.path.isfile(j('g/f3')):
@@ -229,7 +238,8 @@ def check_transition(op, before, after, events, scopes, obs):
                 bad.append((f'{tag}_not_preserved', f'{op}: {lp!r}: {dict(cb)} -> {dict(ca)}'))
         tb = [e for e in eb if e[0] == 'TIMESTAMP']
         ta = [e for e in ea if e[0] == 'TIMESTAMP']
-        if kind == 'cli_write':
+        if kind == 'cli_write' and op != 'cli_update_sub':
+            # whole-tree CLI update may refresh the value of an existing TIMESTAMP (cli.py does so by design)
             if len(tb) != len(ta):
                 bad.append(('TIMESTAMP_not_preserved', f'{op}: {lp!r}: {tb} -> {ta}'))
         elif tb != ta:
